@@ -503,6 +503,66 @@ Proof.
   now rewrite Hc, Hp, app_nil_r.
 Qed.
 
+(** ** A Decoder used for several values *)
+
+Theorem decode_step_total st : exists r, decode_step pf ff st = Some r.
+Proof.
+  unfold decode_step. destruct (parse_value_fuel_suffices pf st) as (v & st1 & E). rewrite E.
+  destruct (p_errs st1); [|eauto]. destruct (marshal_value ff v) as [[t|] es]; [|eauto].
+  destruct (json_valid t); eauto.
+Qed.
+
+Lemma decode_step_reach st r st' : decode_step pf ff st = Some (r, st') -> reach st st'.
+Proof.
+  unfold decode_step. destruct (parse_value pf _ st) as [[v st1]|] eqn:E; [|discriminate].
+  pose proof (parse_value_reach pf _ _ _ _ E) as R.
+  assert (R2 : reach st (if p_see TSemi st1 then p_next st1 else st1)).
+  { destruct (p_see TSemi st1); [eapply reach_trans; [exact R|apply reach_next]|exact R]. }
+  destruct (p_errs st1); [|intros H; injection H as _ <-; exact R].
+  destruct (marshal_value ff v) as [[t|] es]; [destruct (json_valid t)|]; intros H; injection H as _ <-; exact R2.
+Qed.
+
+(** A successful Decode consumes at least one token. *)
+Theorem decode_step_progress st t st' :
+  good st -> decode_step pf ff st = Some (DOk t, st') -> (msr st' < msr st)%nat.
+Proof.
+  intros Hg H. unfold decode_step in H.
+  destruct (parse_value pf _ st) as [[v st1]|] eqn:E; [|discriminate].
+  destruct (parse_value_ok pf (parse_fuel st) st) as (v' & st1' & E' & _ & Hq).
+  { pose proof (parse_fuel_enough st). lia. }
+  rewrite E in E'. injection E' as <- <-.
+  pose proof (parse_value_reach pf _ _ _ _ E) as R.
+  destruct (p_errs st1) eqn:Ep; [|discriminate].
+  assert (He : perrs st1 = []) by (unfold p_errs in Ep; destruct (pcum (cur st1)); [exact Ep|discriminate]).
+  assert (Hj : jail st1 = false) by (apply good_clean; [eapply good_reach; eauto|exact He]).
+  specialize (Hq Hj).
+  destruct (marshal_value ff v) as [[t'|] es]; [|discriminate].
+  destruct (json_valid t'); [|discriminate]. injection H as _ <-.
+  destruct (p_see TSemi st1); [pose proof (msr_next_le st1); lia|exact Hq].
+Qed.
+
+Theorem decode_stream_total : forall fuel st acc,
+  good st -> (msr st < fuel)%nat -> exists r, decode_stream pf ff fuel st acc = Some r.
+Proof.
+  induction fuel as [|f IH]; intros st acc Hg Hf; [lia|]. cbn [decode_stream].
+  destruct (more st); [|eauto].
+  destruct (decode_step_total st) as [[r st'] E]. rewrite E.
+  destruct r as [t|e|t]; eauto.
+  apply IH; [eapply good_reach; [eapply decode_step_reach; exact E|exact Hg]|].
+  pose proof (decode_step_progress st t st' Hg E). lia.
+Qed.
+
+Theorem decode_all_total input : exists r, decode_all pf ff input = Ok r.
+Proof.
+  unfold decode_all, jsonx_stream. destruct (jsonx_raw_tokens input) as [raw| |] eqn:Er.
+  - destruct (parser_stream_spec raw (raw_not_eof _ _ Er)) as [Hb _].
+    destruct (decode_stream_total (stream_fuel (p_init (parser_stream raw))) (p_init (parser_stream raw)) []
+                (p_init_good _ Hb)) as [r ->]; [|eauto].
+    unfold stream_fuel, msr. destruct (is_eof _); lia.
+  - destruct (jsonx_raw_tokens_total input) as [l E]. congruence.
+  - destruct (jsonx_raw_tokens_total input) as [l E]. congruence.
+Qed.
+
 (** On inputs. *)
 Theorem unmarshal_ok_balanced input t :
   unmarshal pf ff input = Ok (UOk t) ->
